@@ -292,6 +292,18 @@ def search(ctx):
                     ctx.violation("C16:update-metadata", "update_metadata changed more (or less) than the named fields / polarisation not unit length", dict(info, kind="update"))
                 if not np.array_equal(snap[0], im.values) or any(not _attrs_equal(snap[1][k], im.attrs[k]) for k in snap[1]):
                     ctx.violation("C16:update-metadata-mutates", "update_metadata modified the original image", dict(info, kind="update"))
+                # "only the named fields changed": an image may carry more than the four optical fields (acquisition tags, the record
+                # of the original axes a pixel subset keeps, the name) -- none of that is named, none of it may change or vanish
+                im2 = im.copy()
+                im2.attrs = dict(im.attrs, exposure_ms=12.5, camera="cam-%d" % i, roi_origin=[3, 4], original_dims={'x': [0.0, 0.1], 'y': [0.0, 0.2]})
+                im2.name = "frame-%d" % i
+                new2 = update_metadata(im2, illum_wavelen=0.5)
+                ctx.tried("update_metadata-extra-fields", (i,))
+                lost = [k for k in ("exposure_ms", "camera", "roi_origin", "original_dims") if k not in new2.attrs or new2.attrs[k] != im2.attrs[k]]
+                if lost or new2.name != im2.name or not all(np.array_equal(new2[d].values, im2[d].values) for d in im2.dims) or new2.attrs.get('illum_wavelen') != 0.5 \
+                        or not _attrs_equal(new2.attrs.get('medium_index'), im2.attrs.get('medium_index')):
+                    ctx.violation("C16:update-metadata:other-fields", "update_metadata(illum_wavelen=...) on an image that carries further attributes: %s" % (
+                        "the fields %r are missing or changed in the result" % lost if lost else "name, coordinates or an unnamed optical field changed"), dict(info, kind="update-extra", lost=lost))
                 # raster images: pixel (i, j) at (i*sx, j*sy), requested channels; averaging independent of file order
                 if i % 3 == 0:
                     K = int(rng.integers(2, 5))
